@@ -37,6 +37,8 @@ var lpInputs = map[string]string{
 	"lp_newline_in_field": "m1,t1=a f1=1i,f2=\"line one\nline two\",ts=\"2021-03-04 05:06:07\",message=\"lpmsg\" 1600000000000000000\nm2,t9=z f9=9i 1600000001000000000\n",
 }
 
+func isText(in string) bool { return in == "text" || in == "text_multiline" }
+
 func isLP(in string) bool { _, ok := lpInputs[in]; return ok }
 
 func cliScript(kind, in string) string {
@@ -239,6 +241,8 @@ func replayCli(args []string) (any, error) {
 		switch v.Cfg.Input {
 		case "text":
 			data = []byte("hello cli world")
+		case "text_multiline":
+			data = []byte("  first line \n\nthird line\twith a tab\n")
 		default:
 			if isLP(v.Cfg.Input) {
 				data = []byte(lpInputs[v.Cfg.Input])
@@ -259,6 +263,8 @@ func replayCli(args []string) (any, error) {
 			typ := v.Cfg.Input
 			if isLP(typ) {
 				typ = "lineprotocol"
+			} else if isText(typ) {
+				typ = "text"
 			}
 			cliArgs = append(cliArgs, "-i", inPath, "-t", typ)
 		}
@@ -312,7 +318,7 @@ func replayCli(args []string) (any, error) {
 			return nil
 		}
 		slack := time.Millisecond
-		if v.Cfg.Input == "text" && v.Out.Time != "set" {
+		if isText(v.Cfg.Input) && v.Out.Time != "set" {
 			slack = 30 * time.Second // "now" is taken twice
 		}
 		if d := samePoint(got, lib, slack); d != "" {
@@ -352,7 +358,7 @@ func replayCli(args []string) (any, error) {
 		_, hasLib := got.Fields["fromlib"]
 		_, hasMsg := got.Fields["message"]
 		moved := "f1"
-		if v.Cfg.Input == "text" {
+		if isText(v.Cfg.Input) {
 			moved = "message"
 		}
 		_, tagMoved := got.Tags[moved]
